@@ -92,6 +92,12 @@ def rule_cint(ctx):
                 if c.lo == c.hi and c.lo in (45, 10):
                     bad("layout", "%s: a '%s' is written among the digits" % (who, "-" if c.lo == 45 else "\\n"))
                     break
+                if c.lo == c.hi and 48 <= c.lo <= 57 and not c.sym and Mr[0] // 10 ** j == Mr[1] // 10 ** j:
+                    # a constant character on a path on which this digit of the value is the same for every value of the path
+                    if (Mr[0] // 10 ** j) % 10 != c.lo - 48:
+                        bad("digit-weights", "%s: the digit %d places from the right is written as '%s', the value has %d there" % (who, j, chr(c.lo), (Mr[0] // 10 ** j) % 10))
+                        break
+                    continue
                 if not (c.chr and c.sym):
                     raise AnalysisError("R-CINT: %s stores a digit whose relation to the value the analysis cannot follow (%r)" % (name, c))
                 if c.sym[1] != 10 or c.sym[0] != 10 ** j:
@@ -130,7 +136,7 @@ def rule_template(ctx):
                      "declaration found through the template's own #includes); the generated prototype declares int64_t parameters; "
                      "in the template the argc guard returns before asm_main is called; main returns the value of asm_main")
     tpl = ctx.src(TEMPLATE_C)
-    key = "driver::generate_c_driver"
+    key = fx.fn("driver::generate_c_driver")["key"]       # the function may live in a sub-module of the driver crate
     fn = Fn(fx.fn(key))
     # the bodies that instantiate the template: generate_c_driver, its closures and the helpers of the driver crate it calls
     bodies = []
@@ -164,6 +170,31 @@ def rule_template(ctx):
                         for d2 in fn_b.defs().get(d["rv"]["pl"]["l"], []):
                             if d2["kind"] == "assign" and d2["rv"]["k"] == "use" and d2["rv"]["op"].get("str") is not None:
                                 s = d2["rv"]["op"]["str"]
+            if s is None and a and op_root(a) is not None:
+                # the needle is a parameter of a helper (`instantiate(text, placeholder, instance)`): the constant strings its callers pass
+                from ..mir import Flow as _Flow
+                hflow = _Flow(fn_b)
+                pidx = [o[1] for o in hflow.origins(op_root(a), ()) if o[0] == "arg"]
+                if pidx:
+                    got = []
+                    for fb2 in [Fn(fx.fns[b]) for b in bodies]:
+                        for _, t2 in fb2.calls():
+                            if fn_b.key in (t2.get("resolved_key"), t2.get("callee_key")) and pidx[0] - 1 < len(t2["args"]):
+                                a2 = t2["args"][pidx[0] - 1]
+                                s2 = a2.get("str") if a2.get("k") == "const" else None
+                                if s2 is None and a2.get("k") == "const" and "str" in fx.consts.get(a2.get("def"), {}):
+                                    s2 = fx.consts[a2["def"]]["str"]
+                                if s2 is None and a2.get("k") in ("copy", "move"):
+                                    f2flow = _Flow(fb2)
+                                    for o2 in f2flow.origins(op_root(a2), ()):
+                                        if o2[0] == "const" and o2[1].startswith("str:"):
+                                            s2 = o2[1][4:]
+                                        elif o2[0] == "const" and o2[1].startswith("def:") and "str" in fx.consts.get(o2[1][4:], {}):
+                                            s2 = fx.consts[o2[1][4:]]["str"]
+                                got.append((s2, t2["sp"]))
+                    if got:
+                        needles.extend(got)
+                        continue
             needles.append((s, t["sp"]))
     if len(needles) < 4:
         raise AnalysisError("R-TEMPLATE: only %d replace() calls found in generate_c_driver" % len(needles))
@@ -202,12 +233,12 @@ def rule_template(ctx):
     conv = None
     proto_ty = None
     for s in strs:
-        m = re.search(r",\s*([A-Za-z_][A-Za-z0-9_]*)\(argv\[\{\}\]\)", s)
+        m = re.search(r"(?:^|[,(\s])([A-Za-z_][A-Za-z0-9_]*)\(argv\[\{\}\]\)", s)
         if m:
             conv = m.group(1)
-        m = re.search(r",\s*([A-Za-z_][A-Za-z0-9_ ]*?)\s+input\{\}", s)
+        m = re.search(r"(?:^|[,(]\s*)([A-Za-z_][A-Za-z0-9_ ]*?)\s+input\{\}", s)
         if m:
-            proto_ty = m.group(1)
+            proto_ty = m.group(1).strip()
     ikey = "argument-conversion"
     if conv is None or proto_ty is None:
         raise AnalysisError("R-TEMPLATE: could not recover the argument conversion / prototype strings of generate_c_driver (%s)" % strs[:6])
@@ -236,51 +267,61 @@ def rule_template(ctx):
     main = cfront.functions(ast).get("main")
     if not main:
         raise AnalysisError("R-TEMPLATE: template has no main")
-    body = [c for c in main["inner"] if c.get("kind") == "CompoundStmt"][0]["inner"]
-
-    def mentions(n, name):
-        if n.get("kind") == "DeclRefExpr" and n.get("referencedDecl", {}).get("name") == name:
-            return True
-        return any(mentions(c, name) for c in n.get("inner", []) if isinstance(c, dict))
-    guard_idx = call_idx = ret_idx = None
-    val_var = None
-    for i, st in enumerate(body):
-        if st.get("kind") == "IfStmt" and mentions(st["inner"][0], "argc"):
-            then = st["inner"][1]
-            rets = [c for c in then.get("inner", []) if c.get("kind") == "ReturnStmt"]
-            nz = False
-            for r in rets:
-                lit = r["inner"][0]
-                while lit.get("kind") in ("ImplicitCastExpr", "ParenExpr"):
-                    lit = lit["inner"][0]
-                nz = lit.get("kind") == "IntegerLiteral" and int(lit["value"]) != 0
-            cond = st["inner"][0]
-            if rets and nz and cond.get("opcode") == "!=":
-                guard_idx = i
-        if mentions(st, "asm_main") and call_idx is None:
-            call_idx = i
-            if st.get("kind") == "BinaryOperator" and st.get("opcode") == "=":
-                val_var = st["inner"][0].get("referencedDecl", {}).get("name")
-        if st.get("kind") == "ReturnStmt":
-            ret_idx = i
-            rv = st["inner"][0]
-            while rv.get("kind") in ("ImplicitCastExpr", "ParenExpr"):
-                rv = rv["inner"][0]
-            ret_var = rv.get("referencedDecl", {}).get("name")
+    # main of the template, abstractly interpreted path by path with argc ranging over all ints (its static helpers inlined; the
+    # template is the instance for no arguments): on every path with argc != 1 nothing calls asm_main and the result is non-zero;
+    # on every path with argc == 1 asm_main is called exactly once and its unchanged result is what main returns
+    from .. import cabs
+    tfns = cfront.functions(ast)
+    try:
+        a = cabs.analyse_function(main, tfns)
+    except AnalysisError as e:
+        raise AnalysisError("R-TEMPLATE: main of the driver template: %s" % e)
+    guard_bad, status_bad, n_ok, n_wrong = [], [], 0, 0
+    for st in a.finals:
+        if st.P is None:
+            raise AnalysisError("R-TEMPLATE: argc is not the first integer parameter of the template's main")
+        calls = [e for e in a.events if e[0] == "asm_main" and _is_prefix_state(e[2], st)]
+        wrong = st.P[1] < 1 or st.P[0] > 1
+        right = st.P == (1, 1)
+        if not wrong and not right:
+            raise AnalysisError("R-TEMPLATE: a path of main does not decide whether argc is the expected number (%r)" % (st.P,))
+        r = st.ret
+        if wrong:
+            n_wrong += 1
+            if calls:
+                guard_bad.append("argc in [%d, %d]: asm_main is called" % st.P)
+            elif not (isinstance(r, cabs.Num) and (r.lo > 0 or r.hi < 0)):
+                guard_bad.append("argc in [%d, %d]: main may return 0 (%r)" % (st.P[0], st.P[1], r))
+        else:
+            n_ok += 1
+            if len(calls) != 1:
+                status_bad.append("argc == 1: asm_main is called %d times" % len(calls))
+            elif not (isinstance(r, cabs.Num) and r.tag and r.tag[:2] == ("call", "asm_main")):
+                status_bad.append("argc == 1: main returns %r, not the unchanged result of asm_main" % (r,))
+    if not n_ok or not n_wrong:
+        raise AnalysisError("R-TEMPLATE: main of the template has %d accepting and %d rejecting paths" % (n_ok, n_wrong))
     ikey = "template:argc-guard-before-call"
-    if guard_idx is not None and call_idx is not None and guard_idx < call_idx:
-        res.inst(ikey, TEMPLATE_C, None, "ok")
+    if not guard_bad:
+        res.inst(ikey, TEMPLATE_C, None, "ok", "%d paths with a wrong argument count: no call of asm_main, non-zero result" % n_wrong)
     else:
         res.inst(ikey, TEMPLATE_C, None, "violation")
-        res.violate(ikey, "driver template: the `argc != ..` guard with a non-zero return does not precede the call of asm_main", TEMPLATE_C, None)
+        res.violate(ikey, "driver template: with a wrong number of arguments the program is not refused before asm_main runs (%s)" % guard_bad[0], TEMPLATE_C, None)
     ikey = "template:exit-status"
-    if val_var and ret_idx is not None and ret_var == val_var:
-        res.inst(ikey, TEMPLATE_C, None, "ok", "return %s = asm_main(..)" % val_var)
+    if not status_bad:
+        res.inst(ikey, TEMPLATE_C, None, "ok", "main returns the result of asm_main")
     else:
         res.inst(ikey, TEMPLATE_C, None, "violation")
-        res.violate(ikey, "driver template: main does not return the value of asm_main", TEMPLATE_C, None)
+        res.violate(ikey, "driver template: main does not return the value of asm_main (%s)" % status_bad[0], TEMPLATE_C, None)
     res.require_floor(8)
     return res
+
+
+def _is_prefix_state(ev_state, final_state):
+    """the event was recorded on the path that ends in final_state: the event's state is an ancestor (its P range contains the final one
+    and its stores are a prefix)"""
+    if ev_state.P is None or final_state.P is None:
+        return True
+    return ev_state.P[0] <= final_state.P[0] and final_state.P[1] <= ev_state.P[1]
 
 
 def rule_ret(ctx):
